@@ -73,6 +73,19 @@ func smallNonNeg(v ssa.Value, d int) bool {
 			}
 		}
 		return len(x.Edges) > 0
+	case *ssa.Extract:
+		// a byte count handed back by a helper analysed as part of this function: small on every return of the helper
+		if c, ok := x.Tuple.(*ssa.Call); ok {
+			if h := AbsorbedCallee(c); h != nil {
+				rets := ReturnsOf(h)
+				for _, r := range rets {
+					if x.Index >= len(r.Results) || !smallNonNeg(retVal(r, x.Index), d+1) {
+						return false
+					}
+				}
+				return len(rets) > 0
+			}
+		}
 	}
 	return false
 }
